@@ -373,7 +373,8 @@ def front_end(ctx, content):
                               {'content': content, 'endpoint': level, 'params': kw})
     for combo in itertools.product(*(menu[n] for n in names)):
         kw = dict(zip(names, combo))
-        for index, limit in ((None, None), (['1'], ['2'])):
+        whole = None    # the end point's own unpaged answer: pages are slices of it
+        for index, limit in ((None, None), (['1'], ['2']), (['1'], None), (None, ['2']), (['9'], None)):
             ctx.count('fe_search_calls')
             try:
                 reply = json.loads(database.search(index=index, limit=limit, **kw))['content']
@@ -386,9 +387,22 @@ def front_end(ctx, content):
             full = [as_item(k) for k in sorted(ref_find(content, q), key=lambda k: (k[0],) + tuple(map(str, k[1:])))]
             i = int(index[0]) if index else 0
             exp = full[i:i + int(limit[0])] if limit else full[i:]
-            if sorted(reply.get('items', [])) != sorted(exp) and not limit:
-                ctx.violation('C17/fe-search/items', f'database.search({kw}) items {reply.get("items")}, reference {exp}',
-                              {'content': content, 'params': kw})
+            if index is None and limit is None:
+                whole = list(reply.get('items', []))
+                if sorted(whole) != sorted(full):
+                    ctx.violation('C17/fe-search/items', f'database.search({kw}) items {whole}, reference {full}',
+                                  {'content': content, 'params': kw})
+                if [int(x.split('.')[0]) for x in whole] != sorted(int(x.split('.')[0]) for x in whole):
+                    ctx.violation('C17/fe-search/order', f'database.search({kw}) items {whole} are not in ascending run-id order',
+                                  {'content': content, 'params': kw})
+            elif whole is not None:
+                # entries with equal run id have no prescribed order: a page is
+                # judged against the end point's own full list
+                page = whole[i:i + int(limit[0])] if limit else whole[i:]
+                if list(reply.get('items', [])) != page:
+                    ctx.violation('C17/fe-search/page', f'database.search({kw}, index={index}, limit={limit}) items '
+                                  f'{reply.get("items")}, the same query unpaged gives {whole}',
+                                  {'content': content, 'params': kw, 'index': index, 'limit': limit})
             if reply.get('total') != len(full):
                 ctx.violation('C17/fe-search/total', f'database.search({kw}) total {reply.get("total")}, reference {len(full)}',
                               {'content': content, 'params': kw})
